@@ -20,6 +20,12 @@ CHECKS = {
  "C04": dict(cat="exploration", technique="deterministic simulation: repeated allocate-then-free-everything rounds on the simulated address space with exact mapped-byte accounting, growth oracle",
    text="A seeded workload round is repeated 200 (thorough: up to 5000) times on one Dlmalloc over the memory provider (placement by decision, sparse refusals); the provider's exact mapped-byte total is tracked per call. Violation only if window maxima keep strictly increasing, by at least 256 KiB, and the end footprint exceeds 3x peak live + 8 MiB: decides unbounded growth, not a tight bound. Single-threaded and 2-3 simulated threads through Mutex<Dlmalloc>.",
    note="The private GlobalDlMalloc wrapper is not linked into the harness (its composition Mutex<Dlmalloc> is); a defect confined to that wrapper is out of reach of this check.", ref="DESIGN.md §3 C04"),
+ "C12": dict(cat="fault_enumeration", technique="deterministic simulation: single-fault enumeration at the sc seam over the system-call trace of each fd-creating operation (parent and forked child), descriptor-table model as oracle",
+   text="Each of ~42 public descriptor-creating scenarios runs on the real kernel behind a pass-through kernel seam; pass 1 records its system-call trace, then every call index (parent side and the forked child's side for spawn) is failed - not executed - with every plausible errno; a seeded multi-fault part adds random combinations. Oracle: the process's real descriptor set after dropping the results equals the set before, and the model flags a close of a descriptor the operation neither opened nor was given, and a second close. Complete over (scenario, call index, errno table); the seeded part is sampling.",
+   note="The errno table per call is a chosen subset; scenario set-up calls are part of the enumerated trace; a failed close still releases the descriptor.", ref="DESIGN.md §3 C12"),
+ "C13": dict(cat="fault_enumeration", technique="deterministic simulation: single-fault enumeration on both sides of a real fork/exec at the sc seam, process-tree and exec-target dump as oracle",
+   text="12 base commands plus seeded generated commands are spawned for real; every system call of spawn on the parent side and of the child between fork and exec is failed with every plausible errno (the plan crosses fork in the copied address space, child-side events come back through a shared page). Oracle: code right after spawn() detects execution in a second process; Ok => the exec target's dump (argv, raw env block, cwd, pgid, uid/gid, identity of fds 0-2) equals the configuration and wait yields its exit status; failing step => Err with that errno and no child left alive.",
+   note="Built without the start feature (Environment::Inherit not exercised); close faults, EINTR on the sync-pipe read and child write/exit faults after a failed exec are treated as transparent/unjudged.", ref="DESIGN.md §3 C13"),
 }
 NA = {
  "C07": "pure function of the initial process image (argv/env/aux on the start-up stack): no schedule, clock, fault or second party to simulate",
